@@ -112,6 +112,10 @@ Definition decode_msg (t : table) (b : bytes) : dres :=
          end
        end.
 
+(* replace the hop byte of a packet *)
+Definition set_byte1 (b : bytes) (v : N) : bytes :=
+  match b with x :: _ :: r => x :: v :: r | _ => b end.
+
 Section Hash.
   Variable hash : bytes -> N.
 
@@ -129,6 +133,18 @@ Section Hash.
       ++ be_enc 8 (hash64 (canon self (m_from m)))
       ++ be_enc 8 (hash64 (canon self (m_to m)))
       ++ pad8 (m_fsvc m) ++ pad8 (m_tsvc m) ++ m_data m.
+
+  (* SendMessageWithHopsToLive refuses service names that do not fit the 8-byte field:
+     "if len(fromService) > 8 || len(toService) > 8 { return error }" — nothing is encoded,
+     nothing is sent *)
+  Definition send_refused (fsvc tsvc : bytes) : bool := (8 <? blen fsvc) || (8 <? blen tsvc).
+
+  (* the packet that a send of m (budget m_hops m > 0, remote destination, connected next hop)
+     puts on the first link: None = refused; otherwise forwardMessage writes the encoding with
+     the hop byte decremented *)
+  Definition first_hop_packet (self : bytes) (m : msg) : option bytes :=
+    if send_refused (m_fsvc m) (m_tsvc m) then None
+    else Some (set_byte1 (encode_msg self m) (m_hops m - 1)).
 
   (* ... and its side effect on the sender's table *)
   Definition encode_tbl (self : bytes) (t : table) (m : msg) : table :=
@@ -159,10 +175,6 @@ Definition canon_msg (self : bytes) (m : msg) : msg :=
   {| m_from := canon self (m_from m); m_fsvc := m_fsvc m; m_to := canon self (m_to m);
      m_tsvc := m_tsvc m; m_hops := m_hops m; m_data := m_data m |}.
 
-(* replace the hop byte of a packet *)
-Definition set_byte1 (b : bytes) (v : N) : bytes :=
-  match b with x :: _ :: r => x :: v :: r | _ => b end.
-
 (* ---------- correspondence cases ---------- *)
 
 Definition msg_eqb (a b : msg) : bool :=
@@ -189,7 +201,11 @@ Fixpoint alist_hash (al : list (bytes * N)) (name : bytes) : N :=
 Inductive wop :=
 | WAdd (name : bytes) (obs : N)          (* AddNameHash(name) = obs *)
 | WEnc (m : msg) (obs : bytes)           (* translateDataFromMessage(m) = obs *)
-| WDec (b : bytes) (obs : dres).         (* translateDataToMessage(b) = obs *)
+| WDec (b : bytes) (obs : dres)          (* translateDataToMessage(b) = obs *)
+| WSend (m : msg) (obs : option bytes).  (* SendMessageWithHopsToLive from this node (m_from = self,
+                                            budget > 0, remote destination routed over a harness
+                                            connection): None = error returned and nothing on the
+                                            link, Some = the packet that appeared on the link *)
 
 Inductive wire_case := WCase (self : bytes) (al : list (bytes * N)) (ops : list wop).
 
@@ -203,6 +219,12 @@ Fixpoint wire_run (hash : bytes -> N) (self : bytes) (t : table) (ops : list wop
     beq_bytes (encode_msg hash self m) obs && wire_run hash self (encode_tbl hash self t m) r
   | WDec b obs :: r =>
     dres_eqb (decode_msg t b) obs && wire_run hash self t r
+  | WSend m obs :: r =>
+    match first_hop_packet hash self m, obs with
+    | None, None => wire_run hash self t r
+    | Some p, Some o => beq_bytes p o && wire_run hash self (encode_tbl hash self t m) r
+    | _, _ => false
+    end
   end.
 
 Definition wire_check (c : wire_case) : bool :=
